@@ -21,7 +21,9 @@
       Counterexamples (concrete histories, by `decide`): `zero_bond_proposer_possible` (punished
       non-proposer opts in after the fork and is chosen), `zero_bond_proposer_by_liveness` (proposer
       slashed to zero keeps proposing), `zero_bond_proposer_by_foreign_fraud` (a fraud proposal against
-      rollapp 1 names the proposer of rollapp 0 as the sequencer to punish), and the summary
+      rollapp 1 names the proposer of rollapp 0 as the sequencer to punish),
+      `zero_bond_proposer_by_punish_proposal` (the standalone governance punish proposal: no fork at
+      all), and the summary
       `no_positive_bond_bound`.
 -/
 import DymVerif.Props.C07
@@ -93,7 +95,7 @@ theorem punished_keeps_status (s s' : St) (au : Bool) (ra hh rev : Nat) (a : Add
   simp only [apply] at h
   obtain ⟨_, _, r, s1, hg, _, hpun, hf⟩ := Fork.fraud_ok_elim h
   have hpun : punish s a rw = .ok s1 := hpun
-  obtain ⟨q, hq, hq1, hras, _⟩ := punish_record hpun
+  obtain ⟨q, hq, hq1, hras, _⟩ := XPunish.punish_record hpun
   have hg1 : getRa s1 ra = some r := by rw [LevNs.getRa_congr hras]; exact hg
   refine ⟨q, r, hq, hg, ?_⟩
   rw [Fork.hardFork_getSeq hg1 hf a, hq1]
@@ -109,7 +111,7 @@ theorem candidate_beats_sentinel (s : St) (ra : Nat) (x : Seq) (hx : x ∈ s.seq
   | none => exact absurd ⟨h1, h2, h3⟩ ((C07.choose_none_iff s ra).1 hc x hx)
 
 /-- with `LivenessSlashMinMultiplier = 1` the liveness slash takes the whole bond -/
-theorem livSlashAmt_full (p : Params) (hm : p.lsMul = ⟨1000000000000000000⟩) (t : Nat) :
+theorem livSlashAmt_full (p : SeqParams) (hm : p.lsMul = ⟨1000000000000000000⟩) (t : Nat) :
     LevNs.livSlashAmt p t = t := by
   unfold LevNs.livSlashAmt
   rw [hm]
@@ -126,7 +128,8 @@ theorem livSlashAmt_full (p : Params) (hm : p.lsMul = ⟨1000000000000000000⟩)
 /-- **liveness_slash_keeps_proposer** — along every run: the block end at the event height of a
     rollapp slashes its real proposer once and LEAVES IT THE PROPOSER: the rollapp record keeps its
     proposer, the sequencer record keeps its status (Bonded), opt-in flag, notice and rollapp; only
-    the bond (minus `livSlashAmt`) and the dishonor change.  Nothing unbonds or replaces a proposer
+    the bond (minus `livSlashAmt`) and the dishonor change — both computed with the x/sequencer
+    parameters in force at that block end (`(run p ops).sqp`).  Nothing unbonds or replaces a proposer
     whose bond the slash has exhausted (with a multiplier of 1 the first slash takes everything:
     `livSlashAmt_full`). -/
 theorem liveness_slash_keeps_proposer (p : Params) (ops : List Op) (f : List (Nat × Nat)) (ra : Nat) (r : Rollapp)
@@ -134,13 +137,13 @@ theorem liveness_slash_keeps_proposer (p : Params) (ops : List Op) (f : List (Na
     (hp : r.proposer = some a) (hq : getSeq (run p ops) a = some q) :
     (∃ r', getRa (step (run p ops) (.end_ f)).1 ra = some r' ∧ r'.proposer = some a) ∧
     getSeq (step (run p ops) (.end_ f)).1 a =
-      some { q with tokens := q.tokens - LevNs.livSlashAmt p q.tokens, dishonor := q.dishonor + p.dishonorL } := by
+      some { q with tokens := q.tokens - LevNs.livSlashAmt (run p ops).sqp q.tokens,
+                    dishonor := q.dishonor + (run p ops).sqp.dishonorL } := by
   have hm : ((run p ops).h, ra) ∈ (run p ops).lev :=
     (LevNs.due_iff (LevNs.run_lev p ops) (LevNs.run_grid p ops).hpos hg).2 hev
   have hd := LevNs.endBlock_due (f := f) (LevNs.run_lev p ops) (run_cust p ops) hg hm
   obtain ⟨r', hr', _, _, hpr⟩ := hd.1
   have h2 := hd.2 a q (LevNs.run_uniq p ops hg hp) hp hq
-  rw [LevNs.run_p] at h2
   exact ⟨⟨r', hr', hpr.trans hp⟩, h2⟩
 
 -- ================================================================================================
@@ -197,6 +200,27 @@ def exForeignFraud : List Op := [.createRollapp 0 9 10, .createRollapp 1 9 10, .
 theorem zero_bond_proposer_by_foreign_fraud :
     ((run exParams exForeignFraud).ras.map fun r => (r.id, r.proposer, r.revs.length)) = [(0, some 1, 1), (1, none, 2)] ∧
     ((getSeq (run exParams exForeignFraud) 1).map fun q => (q.bonded, q.tokens)) = some (true, 0) := by decide
+
+/-- punish-proposal route (the op added by the integration with agent-corea): the standalone governance
+    `PunishSequencerProposal` against the sitting proposer a1 — no fork at all (`C07.punish_keeps_roles`) -/
+def exPunishProposal : List Op := [.createRollapp 0 9 10, .fund 1 100, .createSeq 1 0 10 true, .punish true 1 none]
+
+/-- **zero_bond_proposer_by_punish_proposal** — the punished proposer is still the proposer, Bonded and
+    opted in, with bond 0; the rollapp keeps its one revision. -/
+theorem zero_bond_proposer_by_punish_proposal :
+    ((run exParams exPunishProposal).ras.map fun r => (r.id, r.minBond, r.proposer, r.revs.length)) = [(0, 10, some 1, 1)] ∧
+    ((getSeq (run exParams exPunishProposal) 1).map fun q => (q.bonded, q.optedIn, q.tokens)) = some (true, true, 0) := by decide
+
+/-- parameter-update route: the liveness multiplier is raised to 1 by an x/sequencer `MsgUpdateParams`
+    in mid-history (the rollapp parameters `lsBlocks = lsInterval = 1` are the genesis ones); the next
+    idle block takes a1's whole bond — `liveness_slash_keeps_proposer` with the parameters in force -/
+def exLiveParams0 : Params := { exParams with lsBlocks := 1, lsInterval := 1 }
+def exSlashedOutAfterUpdate : List Op := [.createRollapp 0 9 10, .fund 1 100, .createSeq 1 0 10 true,
+  .setSeqParams true { exLiveParams0.seq with lsMul := ⟨1000000000000000000⟩ }, .begin_ 1, .end_ []]
+example :
+    ((run exLiveParams0 exSlashedOutAfterUpdate).ras.map fun r => (r.id, r.minBond, r.proposer)) = [(0, 10, some 1)] ∧
+    ((getSeq (run exLiveParams0 exSlashedOutAfterUpdate) 1).map fun q => (q.bonded, q.tokens)) = some (true, 0) ∧
+    (run exLiveParams0 exSlashedOutAfterUpdate).burned = 10 := by decide
 
 /-- **no_positive_bond_bound** — there is no positive amount that every real proposer of every reachable
     state (valid parameters) has bonded: not the rollapp's minimum bond, not even 1. -/
